@@ -824,7 +824,8 @@ def _param_strategy(engine, fam):
         ("pandas", "arrow_map"): st.fixed_dictionaries({"k": st.sampled_from(["string", "int64", "int32"]), "v": st.sampled_from(_PA_ELEMS)}),
         ("pandas", "arrow_dict"): st.fixed_dictionaries({"i": st.sampled_from(["int8", "int32", "int64"]), "v": st.sampled_from(["string", "int64", "float64"]), "ordered": st.booleans()}),
         ("pandas", "arrow_simple"): st.fixed_dictionaries({"t": st.sampled_from(_SIMPLE_PA)}),
-        ("pandas", "cat"): st.fixed_dictionaries({"cats": cats, "ordered": st.booleans()}),
+        # (categories=None with ordered=True is a parameterisation too: "an ordered categorical, whatever its categories")
+        ("pandas", "cat"): st.fixed_dictionaries({"cats": st.one_of(cats, cats, cats, st.none()), "ordered": st.booleans()}),
         ("pandas", "dec"): prec.map(lambda t: {"p": t[0], "s": t[1]}),
         ("pandas", "string"): st.fixed_dictionaries({"storage": st.sampled_from(["python", "pyarrow"])}),
         ("pandas", "period"): st.fixed_dictionaries({"freq": st.sampled_from(["D", "M", "h", "Y", "W", "min"])}),
